@@ -22,6 +22,8 @@ SETS = [
     # a member timeframe FINER than the data spacing under fill: that member has more candles than the default list
     (("SMA2", "S30"), ("OBV", None), ("FILL", True)),
     (("TR", "S20"), ("ST2", "T2"), ("FILL", True)),
+    # big moves: Supertrend flips direction, so its long/short fields come and go (readings with holes)
+    (("ST2", None), ("RSI2", None), ("SIGMA", "REL:PMud")),
     # dots in a user supplied suffix are sanitised like generated ones
     (("EMA2dot", None), ("positive", "T2")),
 ]
@@ -121,7 +123,7 @@ def trailing(ind, name):
 def build(members):
     from hexital import Hexital
     fill = any(l == "FILL" for l, _ in members)
-    inds = [make(BY_LABEL[l], **({"timeframe": t} if t else {})) for l, t in members if l != "FILL"]
+    inds = [make(BY_LABEL[l], **({"timeframe": t} if t else {})) for l, t in members if l not in ("FILL", "SIGMA")]
     return Hexital("h", [], inds, **({"timeframe_fill": True} if fill else {}))
 
 
@@ -132,9 +134,20 @@ def explore(item):
     rep = Report()
     sigma, n = ("UDFZ", 6) if tier == "quick" else ("UDFZJ", 7)
     members = SETS[si]
+    own = next((t for l, t in members if l == "SIGMA"), None)
+    rel = False
+    if own:
+        rel = own.startswith("REL:")
+        sigma, n = own.split(":")[-1], n + 1
+        if first not in sigma:
+            first = sigma["UDFZJ".index(first) % len(sigma)]
     for tail in A.words(sigma, n - 1):
         word = first + tail
-        raw = raw_stream(word, "+", A.regular_gaps("reg", n, 120), "T2")
+        if rel:  # close-to-close steps (+2/-2 bodies, +1/-1 with wicks): trends and reversals
+            from .c09 import rel_stream
+            raw = rel_stream(word, None)
+        else:
+            raw = raw_stream(word, "+", A.regular_gaps("reg", n, 120), "T2")
         hx = build(members)
         for pos in range(n):
             try:
